@@ -65,6 +65,9 @@ JSON_Object *stream_metadata(struct stream *s)
 /* lower-layer failure: calloc may return NULL */
 unsigned g_lowfail;
 #define LOW_PRE (g_lowfail < 1000000u)
+#ifdef C15_CPU_INIT_STUB
+#define cpu_init_begin real_cpu_init_begin   /* the real one is proved in group cpu_init_begin */
+#endif
 #include "cpu.h"
 void *calloc(size_t n, size_t sz)
 {
@@ -118,6 +121,21 @@ int g_hadd_key;
 #endif
 
 #include "cpu.c"                  /* the real /repo/src/emu/cpu.c (cpu_init_begin, accessors) */
+#ifdef C15_CPU_INIT_STUB
+/* Bounded load_cpus groups: cpu_init_begin (cpu.c, outside loom.c) is replaced BY
+ * HAND by its contract cr_cpu_init_begin below, which group cpu_init_begin proves
+ * against the real body: exactly the fields of the ensures clause are set, every
+ * other byte of the (fresh, arbitrary) object is left arbitrary instead of zero.
+ * Reason: DFCC replacement / the real memset of a 45 KB struct inside the
+ * three-iteration loop does not finish (measured: > 15 min vs 50 s). */
+#undef cpu_init_begin
+void cpu_init_begin(struct cpu *cpu, int index, int phyid, int is_virtual)
+{
+	cpu->index = index; cpu->phyid = phyid; cpu->is_virtual = is_virtual; cpu->gindex = -1;
+	cpu->is_init = 0; cpu->loom = NULL; cpu->nthreads = 0; cpu->threads = NULL;
+	cpu->hh.next = NULL; cpu->hh.prev = NULL; cpu->hh.tbl = NULL; cpu->next = NULL; cpu->prev = NULL;
+}
+#endif
 #include "loom.c"                 /* the real /repo/src/emu/loom.c */
 #include "proc.c"                 /* the real /repo/src/emu/proc.c (proc_get_pid, proc_set_loom) */
 #include "harness/c15_spec.h"
@@ -126,8 +144,9 @@ int g_hadd_key;
 #define OLD(e) __CPROVER_old(e)
 
 /* ---------------- cpu_init_begin (cpu.c): exact, self-contained ----------------
- * proved against the real body in group cpu_init_begin; replaces the call inside
- * load_cpus in the bounded groups (the memset of the 45 KB object is then paid once) */
+ * proved against the real body in group cpu_init_begin; the bounded load_cpus
+ * groups use a hand stub that implements exactly this contract (C15_CPU_INIT_STUB) */
+#ifndef C15_CPU_INIT_STUB
 void cr_cpu_init_begin(struct cpu *cpu, int index, int phyid, int is_virtual)
 __CPROVER_requires(__CPROVER_is_fresh(cpu, sizeof(*cpu)))
 __CPROVER_assigns(__CPROVER_object_whole(cpu))
@@ -143,6 +162,7 @@ void h_cpu_init_begin(void)
 	if (is_virtual) REACH("virtual CPU initialized");
 	if (!is_virtual && index > phyid) REACH("physical CPU initialized");
 }
+#endif
 
 /* ======================================================================
  * chains (bounded groups).  NEXT(n) is the hh.next successor.
@@ -189,7 +209,8 @@ unsigned long g_old_ncpus;
 #define NCOMPAT(a, b) ((a) == NULL || (b) == NULL || COMPAT((a)->index, (a)->phyid, (b)->index, (b)->phyid))
 
 /* load_cpus is checked WITHOUT contract instrumentation (DFCC over a chain of
- * 45 KB CPU objects plus three callocs does not finish in 15 min): the harness
+ * 45 KB CPU objects plus three callocs does not finish in 15 min), split into
+ * three groups by the number of CPUs already in the loom (C15_LN): the harness
  * builds the loom, runs the real function and asserts the postconditions as
  * plain C.  The write frame is asserted explicitly (old CPUs and the loom's
  * other fields unchanged). */
@@ -241,6 +262,35 @@ static struct loom *c15_build_loom2(void)
 }
 
 /* postconditions of load_cpus / loom_load_metadata (a macro: REACH assertions must sit in the h_ function) */
+/* reachability witnesses, per case of the split over the number of CPUs already in the loom */
+#define C15_REACH_ANY(r) \
+	if (r == 0 && !w_has) REACH("stream without CPU list accepted"); \
+	if (r != 0 && w_has && w_n == 0) REACH("empty CPU array refused"); \
+	if (r != 0 && w_has && w_n == 1 && w_isobj[0] && w_idx[0] < 0) REACH("negative index refused"); \
+	if (r != 0 && w_has && w_n == 1 && w_isobj[0] && w_idx[0] >= 0 && w_phy[0] == -1) REACH("phyid -1 (virtual CPU) refused"); \
+	if (r != 0 && w_has && UNION_LEGAL) REACH("refused by calloc failure only");
+#if !defined(C15_LN) || C15_LN == 0
+#define C15_REACH_L0(r) \
+	if (r == 0 && w_has && w_ln == 0 && w_n == 3 && N_NEW == 3) REACH("three CPUs into an empty loom"); \
+	if (r != 0 && w_has && w_n == 2 && w_ln == 0 && w_isobj[0] && w_isobj[1] && w_idx[0] >= 0 && w_idx[0] == w_idx[1] && w_phy[0] >= 0 && w_phy[1] >= 0) REACH("same index twice in one stream refused");
+#else
+#define C15_REACH_L0(r)
+#endif
+#if !defined(C15_LN) || C15_LN == 1
+#define C15_REACH_L1(r) \
+	if (r == 0 && w_has && w_n == 2 && w_idx[0] > w_idx[1] && w_ln == 1 && N_NEW == 2) REACH("non-ascending index order accepted (D4 input)"); \
+	if (r != 0 && w_has && w_n == 1 && w_ln == 1 && w_isobj[0] && w_idx[0] >= 0 && w_phy[0] == w_lphy[0]) REACH("same phyid, different index refused"); \
+	if (r != 0 && w_has && w_n == 1 && w_ln == 1 && w_isobj[0] && w_idx[0] == w_lidx[0] && w_phy[0] >= 0 && w_phy[0] != w_lphy[0]) REACH("same index, different phyid refused (loom CPU)");
+#else
+#define C15_REACH_L1(r)
+#endif
+#if !defined(C15_LN) || C15_LN == 2
+#define C15_REACH_L2(r) \
+	if (r == 0 && w_has && w_ln == 2 && w_n == 3 && N_NEW == 3) REACH("three more CPUs into a loom with two"); \
+	if (r == 0 && w_has && w_ln == 2 && w_n == 2 && N_NEW == 0) REACH("same CPUs again: duplicates ignored");
+#else
+#define C15_REACH_L2(r)
+#endif
 /* the chain after the call, read once into locals (nested hh.next dereferences
  * in every clause make symbolic execution explode) */
 #define N_IS(n, idx, phy) ((n) != NULL && NODE_IS(n, idx, phy))
@@ -274,18 +324,7 @@ static struct loom *c15_build_loom2(void)
 	VASSERT(w_ln < 2 || (g_l1->index == w_lidx[1] && g_l1->phyid == w_lphy[1] && !g_l1->is_virtual), "old CPU 1 unchanged"); \
 	VASSERT(loom->is_init == 0 && loom->cpus_array == NULL && loom->nprocs == old_nprocs && loom->procs == old_procs && \
 		loom->vcpu.index == -1 && loom->vcpu.phyid == -1, "loom otherwise unchanged, still not initialized"); \
-	if (r == 0 && !w_has) REACH("stream without CPU list accepted"); \
-	if (r == 0 && w_has && w_ln == 0 && w_n == 3 && N_NEW == 3) REACH("three CPUs into an empty loom"); \
-	if (r == 0 && w_has && w_ln == 2 && w_n == 3 && N_NEW == 3) REACH("three more CPUs into a loom with two"); \
-	if (r == 0 && w_has && w_ln == 2 && w_n == 2 && N_NEW == 0) REACH("same CPUs again: duplicates ignored"); \
-	if (r == 0 && w_has && w_n == 2 && w_idx[0] > w_idx[1] && w_ln == 1 && N_NEW == 2) REACH("non-ascending index order accepted (D4 input)"); \
-	if (r != 0 && w_has && w_n == 0) REACH("empty CPU array refused"); \
-	if (r != 0 && w_has && w_n == 1 && w_isobj[0] && w_idx[0] < 0) REACH("negative index refused"); \
-	if (r != 0 && w_has && w_n == 1 && w_ln == 1 && w_isobj[0] && w_idx[0] >= 0 && w_phy[0] == w_lphy[0]) REACH("same phyid, different index refused"); \
-	if (r != 0 && w_has && w_n == 1 && w_ln == 1 && w_isobj[0] && w_idx[0] == w_lidx[0] && w_phy[0] >= 0 && w_phy[0] != w_lphy[0]) REACH("same index, different phyid refused (loom CPU)"); \
-	if (r != 0 && w_has && w_n == 2 && w_ln == 0 && w_isobj[0] && w_isobj[1] && w_idx[0] >= 0 && w_idx[0] == w_idx[1] && w_phy[0] >= 0 && w_phy[1] >= 0) REACH("same index twice in one stream refused"); \
-	if (r != 0 && w_has && w_n == 1 && w_isobj[0] && w_idx[0] >= 0 && w_phy[0] == -1) REACH("phyid -1 (virtual CPU) refused"); \
-	if (r != 0 && w_has && UNION_LEGAL) REACH("refused by calloc failure only"); \
+	C15_REACH_ANY(r) C15_REACH_L0(r) C15_REACH_L1(r) C15_REACH_L2(r) \
 	}
 
 void h_load_cpus(void)
